@@ -16,9 +16,16 @@ LinkBeh == {"none", "ok", "bad"}
 PhaseSets == {<<"coverage">>, <<"fuzzing">>, <<"coverage", "fuzzing">>, <<"examples", "coverage", "fuzzing", "stateful">>,
               <<"fuzzing", "stateful">>, <<"stateful">>, <<"probing", "coverage", "fuzzing">>}
 HasStateful(ps) == \E i \in 1..Len(ps) : ps[i] = "stateful"
+(* shape of the API document beyond the independent GET operations:
+     "twin"      two more operations on ONE path that differ only by method (PUT answers well, DELETE badly): requests that are
+                 equal up to the method, which matters to anything keyed by "the request" (unique-inputs)
+     "authprobe" the operations declare an apiKey credential, one is configured, the API does not enforce it and the
+                 ignored_auth check is enabled: the failing response belongs to a request the CHECK derived, not to the case's own *)
+Shapes == {"plain", "twin", "authprobe"}
 Desc == {d \in [ops : [1..NOps -> Beh], links : LinkBeh, phases : PhaseSets, workers : 1..MaxWorkers,
-                max_failures : {0, 1, 2}, cof : BOOLEAN, unique : BOOLEAN] :
+                max_failures : {0, 1, 2}, cof : BOOLEAN, unique : BOOLEAN, shape : Shapes] :
            /\ (HasStateful(d.phases) <=> d.links # "none")          \* the stateful phase needs links; no links otherwise
+           /\ (d.shape # "plain" => d.links = "none")
            /\ (d.phases = <<"stateful">> => \A i \in 1..NOps : d.ops[i] = "ok")}
 FaultSites == {"builder.create_test", "unit.worker.case", "unit.worker.send", "checks.run", "stateful.thread.step"}
 FaultExc == {"Exception", "ConnectionError", "AssertionError"}
@@ -28,5 +35,5 @@ Next == UNCHANGED d
 Spec == Init /\ [][Next]_d
 (* sanity of the family itself: every behaviour, phase set and limit value occurs *)
 Export == PrintT(<<"CASE", ToJson([ops |-> d.ops, links |-> d.links, phases |-> d.phases, workers |-> d.workers,
-                                   max_failures |-> d.max_failures, cof |-> d.cof, unique |-> d.unique])>>)
+                                   max_failures |-> d.max_failures, cof |-> d.cof, unique |-> d.unique, shape |-> d.shape])>>)
 =============================================================================
